@@ -137,8 +137,23 @@ impl RetryManager {
                     // Note that a failed retrier could have received some new appointments to retry. In this case, we don't try to send
                     // them because we know that that tower is unreachable. We most likely received these new appointments while the tower
                     // was still flagged as temporarily unreachable when cleaning up after giving up retrying.
-                    self.retriers.retain(|_, retrier| {
+                    // Retriers of abandoned towers are forgotten too (a running one notices by itself and fails). Otherwise an idle
+                    // retrier would outlive its tower and, if the tower is registered again, keep new data from being retried.
+                    let known_towers = self
+                        .wt_client
+                        .lock()
+                        .unwrap()
+                        .towers
+                        .keys()
+                        .cloned()
+                        .collect::<HashSet<_>>();
+                    let wt_client = self.wt_client.clone();
+                    self.retriers.retain(|tower_id, retrier| {
                         retrier.remove_if_failed();
+                        if !known_towers.contains(tower_id) && !retrier.is_running() {
+                            wt_client.lock().unwrap().retriers.remove(tower_id);
+                            return false;
+                        }
                         retrier.should_start() || retrier.is_running() || retrier.is_idle()
                     });
                     // Start all the ready retriers.
